@@ -26,6 +26,10 @@ func (r presult) accepted() bool { return !r.timeout && r.pan == nil && r.err ==
 
 // ParseFile under recover and a watchdog
 func parseGuard(src string, mode parser.Mode, fs *file.FileSet) presult {
+	return parseGuardAny(src, mode, fs)
+}
+
+func parseGuardAny(src interface{}, mode parser.Mode, fs *file.FileSet) presult {
 	ch := make(chan presult, 1)
 	go func() {
 		var r presult
@@ -286,6 +290,9 @@ func brackets(ts []tok) int {
 		if t.k == tkRegex && strings.ContainsAny(t.s, "()[]{}") {
 			return 3 // a mutation may turn the literal's text into division and real brackets: no verdict
 		}
+		if t.k == tkPunct && (t.s == "/" || t.s == "/=") {
+			return 3 // a mutation may turn the division into the start of a regular-expression literal that swallows brackets
+		}
 		if t.k != tkPunct {
 			continue
 		}
@@ -424,6 +431,8 @@ func main() {
 		}
 	}
 	h.literalStream()
+	h.sourceMapStream()
+	h.staticMatrix()
 	for env.Count() < env.N {
 		switch k := r.Intn(20); {
 		case k < 8: // generated program, verdict decided by the Coq model/spec
